@@ -525,6 +525,11 @@ def check(ctx: Ctx):
 
     c04.check_chained_replacement(ctx)
     c03._guarded(ctx, "R04.2", c04.check_relabel)
+    # "the configured handler": handlers of different evaluators share no container (R15.7/R15.8)
+    from . import c15
+
+    c03._guarded(ctx, "R15.8", c15.check_param_aliasing)
+    c03._guarded(ctx, "R15.3", c15.check_mutable_defaults)
 
 
 _E = "panoptica/utils/edge_case_handling.py"
